@@ -31,7 +31,7 @@ def gen_frame(r, rich=False, nhosts=4):
     fs["dport"] = r.pick(SAFE_PORTS[:3])
     return fs
   k = r.wpick([(5, "udp"), (4, "tcp"), (3, "icmp"), (3, "arp"), (2, "other"),
-               (1, "ipother"), (1, "snap"), (1, "llc")])
+               (1, "ipother"), (1, "snap"), (1, "llc"), (1, "rarp")])
   fs["kind"] = k
   if k in ("udp", "tcp"):
     fs["sport"] = r.pick(SAFE_PORTS)
@@ -43,6 +43,8 @@ def gen_frame(r, rich=False, nhosts=4):
     fs["op"] = r.pick([1, 2, 3, 255])
     if r.chance(0.5):
       fs["dst"] = "ffffffffffff"
+  elif k == "rarp":
+    fs["op"] = r.pick([3, 4, 1])
   elif k == "other":
     fs["ethertype"] = r.pick([0x88b5, 0x8847, 0x0801, 0x0600, 0xffff])
   elif k == "ipother":
@@ -110,7 +112,9 @@ def match_from_key(key, r, keep=0.5, exact=False):
           bits = 0 if exact else r.wpick(
               [(4, 0), (1, 1), (2, 8), (2, 16), (1, 24), (1, 31)])
           mask = (0xffffffff << bits) & 0xffffffff
-          m[f] = key[f] & mask
+          # the bits under the wildcard are "don't care": a third of the
+          # prefixes keep them set, as a controller may send them
+          m[f] = key[f] if (bits and r.chance(0.35)) else key[f] & mask
           m[f + "_bits"] = bits
   return m
 
